@@ -443,3 +443,84 @@ for _fn, _cls, _props in (("name_fromgraph", "dask_expr.io.io.FromGraph._name", 
     HARNESSES.append(dict(module=__name__, fn=_fn, props=_props, tier="quick", timeout=120,
                           bounds="two expressions of the class; every operand an unbounded symbolic int / triple of ints (ids of the operand values); the name prefix is fixed",
                           functions=[_cls + " (the tokenizer replaced by an injective stand-in that keeps its arguments)"]))
+
+
+# ---- the remaining class-specific name overrides (C08: names identify every operand) -----------------------------------------
+
+def name_mappartitions(f1: int, m1: int, e1: bool, t1: bool, c1: bool, k1: int, x1: int, f2: int, m2: int, e2: bool, t2: bool, c2: bool, k2: int, x2: int) -> int:
+    """
+    pre: True
+    """
+    import dask_expr._expr as ex
+
+    return _name_pair(ex.MapPartitions, ex, [f1, len, m1, e1, t1, c1, False, None, None, k1, x1], [f2, len, m2, e2, t2, c2, False, None, None, k2, x2])
+
+
+def name_fusedio(e1: int, e2: int) -> int:
+    """
+    pre: True
+    """
+    import dask_expr.io.io as io
+
+    return _name_pair(io.FusedIO, io, [SimpleNamespace(_funcname="read", ident=e1)], [SimpleNamespace(_funcname="read", ident=e2)])
+
+
+def name_frommap(i1: Tuple[int, int], a1: int, k1: int, m1: int, d1: Tuple[int, int, int], p1: int, i2: Tuple[int, int], a2: int, k2: int, m2: int, d2: Tuple[int, int, int], p2: int) -> int:
+    """
+    pre: True
+    """
+    import dask_expr.io.io as io
+
+    return _name_pair(io.FromMap, io, [len, i1, a1, k1, m1, False, d1, None, p1], [len, i2, a2, k2, m2, False, d2, None, p2])
+
+
+def name_treereduce(f1: int, k1: int, m1: int, c1: int, a1: int, s1: int, f2: int, k2: int, m2: int, c2: int, a2: int, s2: int) -> int:
+    """
+    pre: True
+    """
+    import dask_expr._reductions as red
+
+    return _name_pair(red.TreeReduce, red, [f1, k1, m1, len, len, c1, a1, s1], [f2, k2, m2, len, len, c2, a2, s2])
+
+
+def name_customreduction(f1: int, m1: int, c1: int, a1: int, b1: int, s1: int, f2: int, m2: int, c2: int, a2: int, b2: int, s2: int) -> int:
+    """
+    pre: True
+    """
+    import dask_expr._reductions as red
+
+    return _name_pair(red.CustomReduction, red, [f1, m1, c1, a1, b1, s1, "tok"], [f2, m2, c2, a2, b2, s2, "tok"])
+
+
+def tokenize_partial(a1: int, b1: int, c1: int, x1: int, a2: int, b2: int, c2: int, x2: int) -> int:
+    """
+    pre: True
+    """
+    import dask_expr._util as util
+
+    saved = util._tokenize_deterministic
+    util._tokenize_deterministic = _tok
+    try:
+        def part(a, b, c, x):
+            e = SimpleNamespace(operands=[a, b, c, x], _parameters=["frame", "columns", "other"])
+            return util._tokenize_partial(e, ["columns"])
+
+        t1, t2 = part(a1, b1, c1, x1), part(a2, b2, c2, x2)
+    finally:
+        util._tokenize_deterministic = saved
+    # everything except the ignored parameter (b) takes part, the variadic tail included
+    same = a1 == a2 and c1 == c2 and x1 == x2
+    if (t1 == t2) != same:
+        return 2
+    return 1 if same else 0
+
+
+for _fn, _cls in (("name_mappartitions", "dask_expr._expr.MapPartitions._name"), ("name_fusedio", "dask_expr.io.io.FusedIO._name"), ("name_frommap", "dask_expr.io.io.FromMap._name"),
+                  ("name_treereduce", "dask_expr._reductions.TreeReduce._name"), ("name_customreduction", "dask_expr._reductions.CustomReduction._name"),
+                  ("tokenize_partial", "dask_expr._util._tokenize_partial (fusion grouping key: every operand except the ignored parameters)")):
+    HARNESSES.append(dict(module=__name__, fn=_fn, props=["C08", "C16", "C09"], tier="quick", timeout=120,
+                          bounds="two expressions of the class; every operand an unbounded symbolic int / tuple of ints / bool (ids of the operand values); function operands and prefixes fixed",
+                          functions=[_cls + " (the tokenizer replaced by an injective stand-in that keeps its arguments)"]))
+for _h in HARNESSES:
+    if _h["fn"].startswith("name_") and "C08" not in _h["props"]:
+        _h["props"] = _h["props"] + ["C08"]
